@@ -450,14 +450,20 @@ theorem newvar_reserved_names (m : Mgr) (n : Nat) :
     (m.newvarInt n auxPre).2 = m.newvar (.aux n) := by
   simp [Mgr.newvarInt, Mgr.newvarPy, classify_node, classify_aux]
 
-/-- the model's variables and Python's name strings correspond one to one: reading back the name of a variable gives
-    the variable, hence distinct variables have distinct names; and every string is the name of exactly the variable
-    `classify` reads it as -/
+/-- the model's variables and Python's name strings correspond one to one, in both directions: reading a string as a
+    variable and printing it gives the string back (`(classify cs).chars = cs`, white space included — `" x"`, `"x "` and
+    `"x"` are three variables, `"robdd_7 "` is no node); reading back the name of a variable gives the variable, hence distinct
+    variables have distinct names; and what `classify` reads is always a proper variable -/
 theorem names_faithful :
+    (∀ cs : List Char, (classify cs).chars = cs) ∧
     (∀ v : Var, v.Canon → classify v.chars = v) ∧
     (∀ v w : Var, v.Canon → w.Canon → v.chars = w.chars → v = w) ∧
     (∀ cs : List Char, (classify cs).Canon) :=
-  ⟨classify_chars, fun _ _ hv hw h => chars_injective hv hw h, classify_canon⟩
+  ⟨chars_classify, classify_chars, fun _ _ hv hw h => chars_injective hv hw h, classify_canon⟩
+
+/-- hence two `newvar` calls register the same variable iff they form the same string `pre + str(name)` -/
+theorem newvar_same_iff_same_string (cs ds : List Char) : classify cs = classify ds ↔ cs = ds :=
+  ⟨fun h => by rw [← chars_classify cs, ← chars_classify ds, h], fun h => by rw [h]⟩
 
 /-! ### non-vacuity -/
 section Examples
